@@ -2,10 +2,12 @@
    Only theorem statements; proofs are in Proofs/WalkFacts.v, WalkFacts2.v.
    Model: Model/Walk.v (document over a file tree whose child order is the OS listing order),
    parametric in the exclusion matcher excl and the per-file documenter docfn. *)
-From Coq Require Import String List Permutation.
+From Coq Require Import String List Permutation NArith.
 From CMinx Require Import Base.Str Model.Naming Model.Pipeline Model.Walk
      Gen.SourceLiterals Proofs.WalkFacts Proofs.WalkFacts2 Proofs.LiteralsMatch
-     Base.PySem Gen.PySource Proofs.SourceMatch.
+     Base.PySem Gen.PySource Proofs.SourceMatch
+     Base.PyWalkSem Proofs.WalkSourceMatch.
+From CMinx Require Gen.PyWalkSource.
 Import ListNotations.
 
 (* the written paths are exactly the declaratively expected ones: one index.rst per processed
@@ -66,3 +68,28 @@ Theorem C13_names_match_source :
     = header_and_module prefix sep ext_titles ext_modules (if isdir then relpath else basename).
 Proof. exact single_file_names_match_source. Qed.
 Print Assumptions C13_names_match_source.
+
+(* pywalk2coq: document() as regenerated from src/cminx/__init__.py on every run (os.walk loop with
+   in-place pruning, for/else, break/continue, rebinding by sorted, index construction, per-file
+   loop), run on an abstract world, produces exactly the action list of the model.  names_distinct
+   (no two sibling directories / files with one name) holds of every real directory. *)
+Theorem C13_document_matches_source :
+  forall st hdrs docfn excl follow base kind input_file,
+    kind_distinct kind = true ->
+    PyWalkSource.document (PyWorld base kind) docfn [] input_file (py_settings_of st hdrs excl follow)
+    = Walk.document st hdrs docfn excl base kind.
+Proof. exact document_matches_source. Qed.
+Print Assumptions C13_document_matches_source.
+
+Theorem C13_document_single_file_matches_source :
+  forall st hdrs docfn excl follow base top log rel ch name content sl,
+    dir_at top rel = Some ch -> find_file name ch = Some content ->
+    PyWalkSource.document_single_file (PyWorld base (KDir top)) docfn log
+      (APath AInput (rel ++ [name]) false) (APath AInput [] sl) (py_settings_of st hdrs excl follow)
+    = emits log (doc_actions st docfn (ws_prefix st) (rel_string (rel ++ [name])) rel name content).
+Proof. exact document_single_file_matches_source. Qed.
+Print Assumptions C13_document_single_file_matches_source.
+
+Theorem C13_tree_ok_names_distinct : forall ch, tree_ok ch = true -> names_distinct ch = true.
+Proof. exact tree_ok_names_distinct. Qed.
+Print Assumptions C13_tree_ok_names_distinct.
